@@ -318,6 +318,7 @@ func (e *Engine) verifyFunc(fc *FuncContract) (res *FuncResult) {
 			goal: Implies(r.st.pc, tFalse), ndefs: len(e.defs), nfacts: len(e.facts), pos: fc.where})
 		for _, ens := range fc.ensures {
 			if ens.assume {
+				e.noteAssumption("assume clause (a postcondition used at call sites but NOT proved in the callee's body): " + shortName(fc.key) + ": " + normalizeSlug(ens.text))
 				continue
 			}
 			m := e.beginScope()
